@@ -11,6 +11,8 @@ Grammar (line oriented; `#` starts a comment outside blocks; a block is  <<< ...
   rewrite `old tokens` => `new text`   (unit-wide token rewrite, reported)
   assume NOTE                       (free-text assumption for the evidence)
 
+  import FILE.vpart                 (splice in the directives of another file: shared type lists)
+  type    FILE NAME                 (extract a `type X = Y;` alias)
   struct  FILE NAME                 (extract a struct definition)
   enum    FILE NAME
   opaque_type NAME                  (emit `#[verifier::external_body] pub struct NAME;`)
@@ -59,7 +61,7 @@ class FnSpec:
 
     @property
     def impl(self):
-        return self.qual.split("::")[0] if "::" in self.qual else None
+        return self.qual.rsplit("::", 1)[0] if "::" in self.qual else None
 
     @property
     def name(self):
@@ -137,7 +139,7 @@ def _statements(text):
     return stmts
 
 
-def parse(path, include_dir=None):
+def parse(path, include_dir=None, part=False):
     import os
     u = Unit()
     u.path = path
@@ -186,8 +188,17 @@ def parse(path, include_dir=None):
             u.rewrites.append((tick(0), tick(2)))
         elif kw == "assume":
             u.assumes.append(" ".join(a[1] for a in args))
-        elif kw in ("struct", "enum"):
+        elif kw in ("struct", "enum", "type"):
             u.items.append((kw, word(0), word(1)))
+            cur = None
+        elif kw == "import":
+            sub = parse(os.path.join(include_dir, word(0)), include_dir, part=True)
+            u.items += sub.items
+            u.opaque += sub.opaque
+            u.rewrites += sub.rewrites
+            u.prelude += sub.prelude
+            u.uses += sub.uses
+            u.assumes += sub.assumes
             cur = None
         elif kw == "opaque_type":
             u.items.append((kw, None, word(0)))
@@ -196,7 +207,7 @@ def parse(path, include_dir=None):
             u.items.append((kw, None, word(0)))
             cur = None
         elif kw in ("fn", "external"):
-            cur = FnSpec(word(0), word(1), external=(kw == "external"))
+            cur = FnSpec(word(0), args[1][1], external=(kw == "external"))
             cur.line = line
             u.items.append(("fn", cur.file, cur))
         elif cur is None:
@@ -237,6 +248,6 @@ def parse(path, include_dir=None):
             cur.sigrewrites.append((tick(0), tick(2)))
         else:
             raise SpecError("%s:%d: unknown directive %s" % (path, line, kw))
-    if not u.name:
+    if not u.name and not part:
         raise SpecError("%s: no unit name" % path)
     return u
